@@ -135,3 +135,65 @@ Proof.
   - change (T [(97, T [(120, T [])]); (98, T [])]) with (fst (run C15_example_ops empty)).
     apply byte_keys_run; [repeat constructor | apply byte_keys_empty].
 Qed.
+
+(* ---- the source's own function bodies (harness gen-imp, heap mode) ------------------------------------
+   gen/ImpGen.v holds New, Add, Has and Delete as translated from trie/trie.go on this run: a *Trie
+   is an address into a heap of nodes (nil is -1), a node is its map[byte]*Trie, Add allocates with
+   New() and stores through the pointer, Delete stacks the pointers on the path and deletes keys
+   bottom-up until a node keeps other children.  [models h x] says that the heap h holds the tree x
+   (the model trie annotated with the address of every node), [NoDup (addrs x)] that no node is
+   shared — which is what New/Add/Delete build, and is re-established by each of them. *)
+From Bio.gen Require ImpGen.
+From Bio.Model Require GoSem.
+From Bio.Proofs Require Import ImpProofsP.
+
+Theorem C15_has_is_source : forall b fuel h x,
+  models h x -> (length b < fuel)%nat ->
+  ImpGen.imp_trie_Trie_Has fuel h (addr x) b = GoSem.Ret (h, has b (erase x)).
+Proof. exact imp_Has_loop. Qed.
+Print Assumptions C15_has_is_source.
+
+Theorem C15_add_is_source : forall b fuel h x,
+  models h x -> NoDup (addrs x) -> wf (erase x) -> (length b < fuel)%nat ->
+  exists h' x', ImpGen.imp_trie_Trie_Add fuel h (addr x) b = GoSem.Ret (h', tt) /\
+                models h' x' /\ NoDup (addrs x') /\ addr x' = addr x /\
+                erase x' = add b (erase x).
+Proof. exact imp_Add_ok. Qed.
+Print Assumptions C15_add_is_source.
+
+Theorem C15_delete_is_source : forall b h x,
+  models h x -> NoDup (addrs x) -> wf (erase x) ->
+  exists h' x', ImpGen.imp_trie_Trie_Delete h (addr x) b
+                  = GoSem.Ret (h', snd (delete b (erase x))) /\
+                models h' x' /\ NoDup (addrs x') /\ addr x' = addr x /\
+                erase x' = fst (delete b (erase x)).
+Proof. exact imp_Delete_ok. Qed.
+Print Assumptions C15_delete_is_source.
+
+(* New(), then ANY history of Add and Delete calls of the translated functions on the one heap,
+   then any Has query: the calls return what the model's run returns, hence (C15_refines,
+   C15_has_after_history) what the reference set says.  fuel bounds only the length of the
+   sequences (one unit per iteration of `for len(b) > 0`). *)
+Theorem C15_history_is_source : forall fuel ops q,
+  Forall (fun o => (op_len o < fuel)%nat) ops -> (length q < fuel)%nat ->
+  exists h0 root h',
+    ImpGen.imp_trie_New [] = GoSem.Ret (h0, root) /\
+    heap_run fuel ops h0 root = GoSem.Ret (h', snd (run ops empty)) /\
+    ImpGen.imp_trie_Trie_Has fuel h' root q = GoSem.Ret (h', has q (fst (run ops empty))).
+Proof. exact imp_trie_history. Qed.
+Print Assumptions C15_history_is_source.
+
+(* the translated functions run: the example history on a real heap (the nodes unlinked by Delete
+   stay behind as garbage, as they do in Go until collected) *)
+Example C15_heap_example :
+  heap_run 10 C15_example_ops [[]] 0%Z =
+    GoSem.Ret ([[(97%N, 1%Z); (98%N, 6%Z)]; [(120%N, 5%Z)]; [(100%N, 4%Z)]; []; []; []; []],
+               [None; None; None; None; None; Some true; Some false; Some true; Some true; None])
+  /\ ImpGen.imp_trie_Trie_Has 10 [[(97%N, 1%Z); (98%N, 6%Z)]; [(120%N, 5%Z)]; [(100%N, 4%Z)]; []; []; []; []] 0%Z (bs "ax")
+     = GoSem.Ret ([[(97%N, 1%Z); (98%N, 6%Z)]; [(120%N, 5%Z)]; [(100%N, 4%Z)]; []; []; []; []], true)
+  /\ models [[(97%N, 1%Z); (98%N, 6%Z)]; [(120%N, 5%Z)]; [(100%N, 4%Z)]; []; []; []; []]
+            (AT 0 [(97%N, AT 1 [(120%N, AT 5 [])]); (98%N, AT 6 [])]).
+Proof.
+  split; [vm_compute; reflexivity|]. split; [vm_compute; reflexivity|].
+  cbn. repeat split; try lia.
+Qed.
